@@ -664,6 +664,43 @@ func (x *Exec) GraphVacuumNow() {
 	}
 }
 
+// GraphVacuumWindow runs the engine's graph vacuum with the configured retention R (the same
+// R > 0 on every index that has one). The engine prunes the versions soft-deleted before
+// now-R; the model does the same with a cutoff that the two clock readings around the call
+// bracket. It returns false (model untouched, the caller must drop the case) when some stamp
+// of the history lies inside that bracket, i.e. when the outcome depends on the instant the
+// engine read its clock.
+func (x *Exec) GraphVacuumWindow() bool {
+	x.kind("gvacuum")
+	x.Settle()
+	if msg := x.BindGraph(); msg != "" {
+		x.CS.Fail("before graph vacuum: %s", msg)
+	}
+	var ret int64
+	for _, mi := range x.M.Idx {
+		if mi.Cfg.Maint != nil && mi.Cfg.Maint.GraphRetention > 0 {
+			if ret != 0 && ret != int64(mi.Cfg.Maint.GraphRetention) {
+				x.CS.Fail("harness: GraphVacuumWindow needs one retention value")
+			}
+			ret = int64(mi.Cfg.Maint.GraphRetention)
+		}
+	}
+	if ret == 0 {
+		x.CS.Fail("harness: GraphVacuumWindow without a retention")
+	}
+	lo := x.Now()
+	x.E.RunGraphVacuum()
+	hi := x.Now()
+	x.CS.Op("RunGraphVacuum() retention=%dns cutoff in [%d,%d]", ret, lo-ret, hi-ret)
+	for _, st := range x.M.Stamps() {
+		if st >= lo-ret-1 && st <= hi-ret+1 {
+			return false
+		}
+	}
+	x.M.Vacuum(lo - ret)
+	return true
+}
+
 // VEvolve mirrors Engine.VEvolve in the model.
 func (x *Exec) VEvolve(index, oldID string, vec []float32, meta map[string]any, reason string) (string, error) {
 	x.kind("vevolve")
